@@ -689,13 +689,14 @@ class BinTableBitarray(AbstractBinTable):
                 for j in self.data[i].search(1):
                     vals[j] += 1
         else:
-            vals = [0] * len(columns)
+            vals_full = [0] * self.width
 
             columns_set = set(columns)
             mask = fbarray([j in columns_set for j in range(self.width)])
             for i in rows:
                 for j in (self.data[i] & mask).search(1):
-                    vals[j] += 1
+                    vals_full[j] += 1
+            vals = [vals_full[j] for j in columns]
 
         return vals
 
